@@ -207,6 +207,10 @@ class Units:
         self.nchecked += 1
         if not a or not b or isinstance(a, tuple) or isinstance(b, tuple):
             return False
+        # derived units ("level~": computed from a level number by scaling; "@level": a packed word positioned by a
+        # level-derived shift / index) are only comparable with units of their own class
+        if (a.endswith("~") != b.endswith("~")) or (a.startswith("@") != b.startswith("@")):
+            return False
         ca, cb = a.endswith("#"), b.endswith("#")
         if ca or cb:
             if arith and (ca != cb) and a.rstrip("#") != b.rstrip("#"):
@@ -217,6 +221,40 @@ class Units:
             self.report(what, node.get("ln"), (a, b))
             return True
         return False
+
+    def derived(self, o, a, b, node):
+        """units of scaled / packed quantities: `level / K`, `level % K`, `2 * (level % K)` stay level-derived
+        ("level~"); a value shifted by a derived amount, or an element selected by a derived index, is a packed word
+        positioned by that unit ("@level").  Index and shift of one packed word must derive from the same kind of
+        number: `choices[level / K] >> 2 * (var % K)` reads another variable's slot under a non-identity order."""
+        def plain(u):
+            return isinstance(u, str) and not u.endswith("#") and not u.startswith("@")
+        sa, sb = isinstance(a, str), isinstance(b, str)
+        if o in ("/", "%", "*"):
+            if sa and sb and a.endswith("~") and b.endswith("~"):
+                self.mix("operator `%s`" % o, a, b, node)
+                return a
+            for x, y in ((a, b), (b, a)):
+                if plain(x) and y is None:
+                    return x if x.endswith("~") else x + "~"
+            return None
+        if o == "<<":
+            if sb and b.endswith("~"):
+                if sa and a.startswith("@"):
+                    self.mix("shift of a packed word", a, "@" + b[:-1], node)
+                return "@" + b[:-1]
+            return a if sa and a.startswith("@") else None
+        if o == ">>":
+            if sa and a.startswith("@") and sb and b.endswith("~"):
+                self.mix("shift of a packed word (selected by index vs shifted by amount)", a, "@" + b[:-1], node)
+                return None
+            return None
+        if o in ("&", "|", "^"):
+            pa, pb = sa and a.startswith("@"), sb and b.startswith("@")
+            if pa and pb:
+                self.mix("combination of packed words", a, b, node)
+            return a if pa else b if pb else None
+        return None
 
     # ---- expressions ----------------------------------------------------------
     def ex(self, e, env):
@@ -246,12 +284,16 @@ class Units:
                         r = (a if not a.endswith("#") else b)
                     return r
                 return None
+            if o in ("/", "%", "*", "<<", ">>", "&", "|", "^"):
+                return self.derived(o, a, b, e)
             return None
         if k == "assignop":
             a = self.ex(e["l"], env)
             b = self.ex(e["r"], env)
             if e["o"] in ("+", "-"):
                 self.mix("operator `%s=`" % e["o"], a, b, e, arith=True)
+            elif e["o"] in ("|", "&", "^") and isinstance(a, str) and isinstance(b, str):
+                self.mix("operator `%s=` on a packed word" % e["o"], a, b, e)
             return None
         if k == "assign":
             a = self.ex(e["l"], env)
@@ -337,6 +379,8 @@ class Units:
             c = H.root_local(e["e"])
             if c in self.idx and iu:
                 self.mix("index into `%s` (filled per %s)" % (c, self.idx[c]), self.idx[c], iu, e)
+            if isinstance(iu, str) and iu.endswith("~"):
+                return "@" + iu[:-1]
             return None
         if k == "closure":
             env2 = dict(env)
